@@ -297,8 +297,10 @@ def catalogue():
                  ("tuple[int, ...]", tuple[int, ...]), ("tuple[int, str]", tuple[int, str]), ("collections.deque[int]", collections.deque[int]),
                  ("typing.Tuple[int, ...]", typing.Tuple[int, ...]), ("typing.Tuple[int, str]", typing.Tuple[int, str]),
                  ("collections.defaultdict[str, int]", collections.defaultdict[str, int]), ("typing.Tuple", typing.Tuple),
-                 ("list[list[int]]", list[list[int]]), ("dict[str, list[int]]", dict[str, list[int]])]:
-        add(n, o, typing.get_origin(o) or tuple, typing.get_origin(o) is not None and bool(typing.get_args(o)), kind="generic",
+                 ("list[list[int]]", list[list[int]]), ("dict[str, list[int]]", dict[str, list[int]]),
+                 # the tuple with no members: subscripted (its origin is tuple) with an empty argument list
+                 ("tuple[()]", tuple[()]), ("typing.Tuple[()]", typing.Tuple[()])]:
+        add(n, o, typing.get_origin(o) or tuple, typing.get_origin(o) is not None and (bool(typing.get_args(o)) or n.endswith("[()]")), kind="generic",
             flavour="fixedtuple" if n.endswith("[int, str]") else None)
     # wrappers: NewType and TypeAliasType, one and two layers
     base = list(cat)
@@ -332,6 +334,9 @@ def special_forms():
         "Optional[list[int]]": (typing.Optional[list[int]], {"optional", "union"}),
         "Literal[1]": (typing.Literal[1], {"literal"}), "Literal[1, None]": (typing.Literal[1, None], {"literal", "optional"}),
         "Final[int]": (typing.Final[int], {"final"}), "ClassVar[int]": (typing.ClassVar[int], {"classvar"}),
+        # the unsubscripted spellings (`x: ClassVar = 1` is a class variable for dataclasses, `y: Final = 2` a final name)
+        "ClassVar": (typing.ClassVar, {"classvar"}), "Final": (typing.Final, {"final"}),
+        "typing_extensions.ClassVar[int]": (typing_extensions.ClassVar[int], {"classvar"}),
         "Final[Optional[int]]": (typing.Final[typing.Optional[int]], {"final"}),
         "TypeVar": (T, set()), "Callable": (typing.Callable, {"unresolvable"}), "abc.Callable": (cabc.Callable, {"unresolvable"}),
         "Any": (typing.Any, {"unresolvable"}), "object": (object, {"unresolvable"}), "None": (None, {"none"}), "NoneType": (type(None), {"none"}),
